@@ -7,6 +7,8 @@ fn main() {
     let mut ctx = Ctx::new(seed);
     match cmd {
         "rows" => rows::run(&mut ctx),
+        "extract" => gadgets::run(&mut ctx, &args[2..]),
+        "prove_gadget" => gadgets::prove(&mut ctx, &args[2..]),
         _ => {
             eprintln!("unknown driver {cmd}");
             std::process::exit(3);
